@@ -127,6 +127,7 @@ fn run_fixed(spec: &StreamSpec, data: &Rc<Vec<u8>>, r: &Ref, sched: Vec<u32>, lo
     let c = ch.borrow();
     loc.transitions += c.boundaries.len() as u64 + c.pendings as u64;
     classify_boundaries(&c, &r.exp, spec.storage, loc);
+    loc.sample(|| json!({"stream": hex_short(&spec.bytes), "what": spec.what, "schedule": sdesc, "async_results": obs.iter().map(|c| name(*c)).collect::<Vec<_>>(), "blocking_results": r.blocking.iter().map(|c| name(*c)).collect::<Vec<_>>()}));
     check(spec, r, &obs, sdesc, loc);
 }
 
@@ -173,6 +174,7 @@ fn run_explore(spec: &StreamSpec, bound: u32, full_menu_limit: usize, max_exec: 
     if capped {
         loc.outcome("streams whose exploration hit the execution cap");
     }
+    loc.sample(|| json!({"stream": hex_short(&spec.bytes), "what": spec.what, "executions": count, "deviation_bound": bound, "blocking_results": r.blocking.iter().map(|c| name(*c)).collect::<Vec<_>>()}));
     for (obs, sched) in viols {
         check(spec, &r, &obs, sched, loc);
     }
